@@ -150,6 +150,7 @@ func Start() *Env {
 				registered = true
 			}
 			cfg.Server.Modules = append(cfg.Server.Modules, mod.Name())
+			cfg.Server.MaxHeaderUriBytes = 256 // see coq/model/KeepAlive.v max_uri
 		},
 	})
 	return &Env{Srv: srv, Mod: mod, Plan: plan, B: b}
